@@ -11,7 +11,7 @@ META = {
     "text": "WireStatus.tla states the transfer rule (same code, message with invalid UTF-8 replaced by U+FFFD - the Sanitize "
             "reference of WireCodec.tla -, same details; nil <-> OK) and a model of the wire mechanism (grpc-status, percent-encoded "
             "grpc-message, grpc-status-details-bin carrying the serialized status proto). TLC enumerates codes {0,1,2,5,13,16,17,99,"
-            "2^31-1,2^31,2^32-1} x messages over the C08 alphabet plus newline and multi-byte / invalid UTF-8 strings x detail lists "
+            "255,256,300,512,65536,2^31-1,2^31,2^32-1} x messages over the C08 alphabet plus newline and multi-byte / invalid UTF-8 strings x detail lists "
             "of size 0-2 x {unary, unary with header, stream trailers-only, stream with header, stream with one message} (one MC "
             "state per case), checks that the mechanism reproduces the statement exactly outside two known input classes (negative "
             "control: a client that does not percent-decode), the enumerated cases are executed end to end (real grpc.NewClient <-> "
